@@ -21,7 +21,7 @@ CHECKS = {
  "C19": dict(
    technique="runtime monitor: bincode / JSON round trips of every serde-offering value kind (fitted models, parameter sets, transformers, results, selectors, errors); oracle = PartialEq + serde image equality + bit-identical behaviour on fixed inputs + second-trip fixed point",
    text="Every value kind that offers serde under the crates' serde feature is built for several seeds, round-tripped through bincode, JSON and pretty JSON (serde_json with float_roundtrip), and the restored value is compared with the original: equality where defined, learned state, bit patterns of predictions/transforms, validation verdicts and refits of parameter sets, the documented tokenizer guard. Exploration over value kinds and seeds.",
-   note="Trusts serde_json (float_roundtrip) and bincode as lossless carriers for finite floats; JSON is skipped for images containing null. Kernel/KernelView offer no usable serialisation (unsatisfiable derive bound) and are not monitored; Xoshiro-carrying parameter types (k-means, GMM, FTRL params) cannot be serialised with the crates' feature set and are not monitored.",
+   note="Trusts serde_json (float_roundtrip) and bincode as lossless carriers for finite floats; JSON is skipped for images containing null. Kernel/KernelView offer no usable serialisation (unsatisfiable derive bound) and are not monitored.",
    ref="DESIGN.md §5 C19"),
  "C20": dict(
    technique="runtime monitor: repeated fits under varied schedules (rayon pools 1..16 threads, noise threads, fresh child processes with fresh hash seeds and RAYON_NUM_THREADS) compared by canonical bit-pattern digests of learned quantities and predictions; scheduling probe counts distinct chunk-to-worker maps",
